@@ -259,8 +259,9 @@ class LocSlice(LocBase):
         return istop
 
     def _divisions(self):
-        if self.stop == self.start:
-            return (self.istart, self.istop)
+        if self.stop <= self.start:
+            # a slice that runs backwards selects nothing, keep the range sorted
+            return (min(self.istart, self.istop), max(self.istart, self.istop))
 
         if self.iindexer.start is None:
             div_start = self.frame.divisions[0]
@@ -279,7 +280,7 @@ class LocSlice(LocBase):
         )
 
     def _layer(self) -> dict:
-        if self.stop == self.start:
+        if self.stop <= self.start:
             return {
                 (self._name, 0): (
                     methods.loc,
